@@ -101,3 +101,66 @@ keep("V08", ALL, [("solve_brute.py", "return list(reversed(reversed_solution))",
      why="reversal by slicing")
 keep("V08b", ALL, [("solve_brute.py", "for period in reversed(range(n_periods)):", "for period in range(n_periods - 1, -1, -1):", 1)],
      why="backward loop written with a negative step")
+
+# ------------------------------------------------------------------------------ R13 / R14
+brk("X01", ["C01", "C11"], "model_functions.py", 'big_u = u + kwargs["params"]["beta"] * ccv',
+    'big_u = u + kwargs["params"]["beta"] * kwargs["params"]["beta"] * ccv', "beta applied twice")
+brk("X02", ["C01", "C11"], "model_functions.py",
+    '''            return current_u_and_f(
+                **states,
+                **choices,
+                _period=period,
+                params=kwargs["params"],
+            )
+''',
+    '''            u, f = current_u_and_f(
+                **states,
+                **choices,
+                _period=period,
+                params=kwargs["params"],
+            )
+            return kwargs["params"]["beta"] * u, f
+''', "beta in the last period")
+brk("X03", ["C01"], "entry_point.py", "return u.max(where=f, initial=-jnp.inf)", "return u.max(initial=-jnp.inf)",
+    "feasibility mask dropped in compute_ccv")
+brk("X04", ["C01"], "entry_point.py", "return u.max(where=f, initial=-jnp.inf)", "return u.max(where=f, initial=0.0)",
+    "initial=0 instead of -inf")
+brk("X05", ["C01", "C11"], "model_functions.py", "ccv = (ccvs_at_nodes * node_weights).sum()",
+    "ccv = (ccvs_at_nodes * node_weights).mean()", "mean instead of sum over nodes")
+brk("X06", ["C18", "C02"], "argmax.py", "        max_value_mask = jnp.logical_and(max_value_mask, where)\n",
+    "        pass\n", "mask not conjoined in argmax")
+brk("X07", ["C15", "C14"], "ndimage.py", "jnp.clip(jnp.floor(coordinate), 0, input_size - 2)",
+    "jnp.clip(jnp.floor(coordinate), 0, input_size - 1)", "clip to size-1: upper neighbour out of range")
+brk("X08", ["C15"], "ndimage.py", "return [(lower_index, lower_weight), (lower_index + 1, upper_weight)]",
+    "return [(lower_index, upper_weight), (lower_index + 1, lower_weight)]", "weights swapped")
+brk("X09", ["C15"], "ndimage.py", "upper_weight = coordinate - lower_index", "upper_weight = coordinate - jnp.floor(coordinate)",
+    "weight from floor: no extrapolation")
+brk("X10", ["C20"], "discrete_problem.py", 'exp = jnp.exp(a - segmax[segment_info["segment_ids"]])', "exp = jnp.exp(a)",
+    "max shift removed (overflow) and result shifted")
+brk("X11", ["C20"], "discrete_problem.py", "    return scale * _segment_logsumexp(a / scale, segment_info)",
+    "    return _segment_logsumexp(a / scale, segment_info)", "scale not multiplied back")
+brk("X12", ["C01", "C18"], "discrete_problem.py", "        out = out.max(axis=choice_axes)", "        out = out.min(axis=choice_axes)",
+    "min instead of max over choice axes")
+brk("X13", ["C01"], "model_functions.py", "                _period=period,\n                params=kwargs[\"params\"],\n            )\n            weights",
+    "                _period=period + 1,\n                params=kwargs[\"params\"],\n            )\n            weights", "next_state evaluated with period+1")
+brk("X14", ["C02"], "entry_point.py", "        _argmax, _max = argmax(u, where=f, initial=-jnp.inf)", "        _argmax, _max = argmax(u, initial=-jnp.inf)",
+    "policy ignores feasibility")
+brk("X15", ["C15"], "grid_helpers.py", "    step_length = (stop - start) / (n_points - 1)\n    return (value - start) / step_length",
+    "    step_length = (stop - start) / n_points\n    return (value - start) / step_length", "step uses n_points", count=1)
+brk("X16", ["C01"], "model_functions.py", 'variables=[f"next_{var}" for var in stochastic_variables],',
+    'variables=[f"next_{var}" for var in reversed(stochastic_variables)],', "node axes in reversed order vs weights")
+brk("T01", ["C06", "C01"], "simulate.py", "        sparse_vars=list(data_scs.sparse_vars),\n        put_dense_first=False,",
+    "        sparse_vars=list(data_scs.sparse_vars),\n        put_dense_first=True,", "simulator twin puts dense first")
+brk("T02", ["C06", "C02"], "entry_point.py",
+    '''        compute_ccv_argmax = create_compute_conditional_continuation_policy(
+            utility_and_feasibility=u_and_f,''',
+    '''        compute_ccv_argmax = create_compute_conditional_continuation_policy(
+            utility_and_feasibility=get_utility_and_feasibility_function(
+                model=_mod, space_info=space_infos[period - 1], name_of_values_on_grid="vf_arr",
+                period=period, is_last_period=is_last_period),''', "policy built from a second, different u_and_f")
+keep("V07", ALL, [("model_functions.py", 'big_u = u + kwargs["params"]["beta"] * ccv', 'discounted = ccv * kwargs["params"]["beta"]\n            big_u = discounted + u', 1)],
+     why="Bellman sum via a temporary, operands commuted")
+keep("V07b", ALL, [("entry_point.py", "return u.max(where=f, initial=-jnp.inf)", "return jnp.max(u, initial=-jnp.inf, where=f)", 1)],
+     why="function spelling of the masked max")
+keep("V07c", ALL, [("ndimage.py", "    lower_weight = 1 - upper_weight\n", "    lower_weight = lower_index + 1 - coordinate\n", 1)],
+     why="algebraically equal weight")
